@@ -26,7 +26,11 @@ def strat(draw, tier):
         sd['agent'][2] = 'F'
         area = [[-y, h - 1 - y], [-x, w - 1 - x]]
         sd = M.rotate_world(sd, draw(st.integers(0, 3)))
+    huge = f in ('fully_transparent', 'partially_occluded') and draw(st.integers(0, 24)) == 0
+    if huge:
+        area = draw(st.sampled_from(gen.HUGE_AREAS))
     pre = draw(st.sampled_from([None] + [g for g in obsutil.DETERMINISTIC if g != 'partially_occluded' or area[0][1] == 0]))
+    pre = None if huge else pre
     return {'state': sd, 'area': area, 'f': f, 'q': draw(st.integers(1, 3)), 'pre': pre}
 
 
@@ -54,12 +58,12 @@ def oracle(case, ctx):
     h, w = M.shape(sd)
     asym = area[1][0] != -area[1][1] or area[0][1] != 0 or M.area_shape(area)[0] != M.area_shape(area)[1]
     nonfloor = any(c not in ('F', 'H') for r in base['grid'] for c in r)
-    ctx.ev.case(case, nt=((h != w or asym) and nonfloor), classes=['f:' + f, 'heading:' + sd['agent'][2]] + (['nonsquare_grid'] if h != w else []) + (['asymmetric_area'] if asym else []) + (['second_observation'] if case.get('pre') else []) + (['view==grid'] if M.area_shape(area) == (h, w) else []),
+    ctx.ev.case(case, nt=((h != w or asym) and nonfloor), classes=['f:' + f, 'heading:' + sd['agent'][2]] + (['nonsquare_grid'] if h != w else []) + (['asymmetric_area'] if asym else []) + (['second_observation'] if case.get('pre') else []) + (['view==grid'] if M.area_shape(area) == (h, w) else []) + (['huge_view'] if min(M.area_shape(area)) >= 32 else []),
                 key=[sd, area, f])
 
 
 CHECKS = [
     Check('rotation_invariance', oracle, strategy=strat, examples={'quick': 500, 'thorough': 2000}, shards={'quick': 4, 'thorough': 16},
           rule='generated state x every quarter turn x area x {fully_transparent, partially_occluded, raytracing}: observation of the coordinate-rotated world == observation of the original',
-          required=['nonsquare_grid', 'asymmetric_area', 'second_observation', 'view==grid', 'f:raytracing', 'f:partially_occluded', 'heading:L', 'heading:B', 'heading:R', 'heading:F']),
+          required=['nonsquare_grid', 'asymmetric_area', 'second_observation', 'view==grid', 'f:raytracing', 'f:partially_occluded', 'heading:L', 'heading:B', 'heading:R', 'heading:F', 'huge_view']),
 ]
